@@ -310,3 +310,19 @@ CHECKS['C20'] = dict(
     assumptions=['writes are appends to one descriptor (the writer never seeks)', 'which assertion stops the process is not prescribed'],
     budget={'quick': 300, 'thorough': 2400},
 )
+
+_CK = ['-Dmtbl_fixed_decode32=ck_fixed_decode32', '-Dmtbl_fixed_decode64=ck_fixed_decode64', '-Dmtbl_varint_decode64=ck_varint_decode64', '-Dmtbl_varint_decode32=ck_varint_decode32', '-Dmtbl_crc32c=ck_crc32c']
+_RO = H('h_ropen.c', 'asan', tu_flags={'mtbl/reader.c': ['-Dmmap=vf_mmap', '-Dmunmap=vf_munmap'] + _CK, 'mtbl/block.c': _CK, 'mtbl/metadata.c': _CK})
+CHECKS['C19'] = dict(
+    level=FE, engine='envshim',
+    technique='exhaustive enumeration of structured damage (every truncation, every byte value in every trailer/index-header position, every index offset, every short index-length varint plus boundary values) applied to seed tables, opened through the real reader whose mapping ends at a guard page and whose decode primitives are bounds-checking wrappers',
+    text='Six seed tables (empty, 1 and 3 blocks, lz4, foreign prefix, two format-v1 files from the independent encoder) are damaged in every way of the listed families and opened with mtbl_reader_init and mtbl_reader_init_fd, verify_checksums off and on. The result may be NULL, a reader, or a captured assertion. Any read outside the file is caught three ways: the decode/CRC wrappers compiled into reader.c, block.c and metadata.c check every address range against the file, the file is mapped so that it ends exactly at a PROT_NONE region (SIGSEGV/SIGBUS are reported with the case), and AddressSanitizer watches the heap.',
+    jobs=[dict(name='open', spec=_RO, args=[])],
+    states_key='states', transitions_key='transitions', traces_key='cases',
+    rule='one case = (damage family, seed, parameters, verify_checksums, entry point); signature = (family, seed)',
+    bounds={'quick': 'all families on 6 seeds x {verify off,on} x {init, init_fd}; see harness/h_ropen.c for the value sets',
+            'thorough': 'same (the families are exhaustive as defined)'},
+    nonzero=['cases', 'returned_null', 'returned_reader', 'stopped_on_assertion'],
+    assumptions=['arbitrary unstructured content is outside the bound; the families target every field the open path reads'],
+    budget={'quick': 300, 'thorough': 1200},
+)
